@@ -5,6 +5,8 @@
 pub mod verif_spec {
     #[allow(unused_imports)] use vstd::prelude::*;
     pub use crate::verif_spec_stream::*;
+    pub use crate::verif_spec_int::*;
+    pub use crate::verif_spec_vanilla::*;
 
     pub open spec fn be16(x: u16) -> Seq<u8> { seq![(x / 256) as u8, (x % 256) as u8] }
     pub open spec fn le16(x: u16) -> Seq<u8> { seq![(x % 256) as u8, (x / 256) as u8] }
